@@ -370,21 +370,59 @@ def rule_optkey(c: Ctx) -> RuleResult:
               f"uses {b}" if ok else f"OptionsDict.{m} is missing or does not use the backing dict {b}")
     generic_get = ci.methods.get("__getattr__")
     generic_set = ci.methods.get("__setattr__")
+
+    def factory_form(k: str) -> tuple[bool, bool]:
+        """`k = make_property("k", ...)` in the class body, where make_property returns property(getter, setter) whose nested
+        getter returns self.<backing>[name] and whose setter stores self.<backing>[name] = value, name being its parameter."""
+        for st in ci.node.body:
+            if isinstance(st, ast.Assign) and len(st.targets) == 1 and isinstance(st.targets[0], ast.Name) and st.targets[0].id == k \
+                    and isinstance(st.value, ast.Call) and isinstance(st.value.func, ast.Name):
+                fac = c.p.resolve_name(ci.module, st.value.func.id)
+                if not isinstance(fac, Func):
+                    continue
+                params = [a.arg for a in fac.node.args.args]
+                if not params:
+                    continue
+                a0 = st.value.args[0] if st.value.args else next((kw.value for kw in st.value.keywords if kw.arg == params[0]), None)
+                if not (isinstance(a0, ast.Constant) and a0.value == k):
+                    return False, False
+                nested = {n.name: n for n in fac.node.body if isinstance(n, ast.FunctionDef)}
+                rets = [n for n in fac.node.body if isinstance(n, ast.Return) and isinstance(n.value, ast.Call) and U(n.value.func) == "property"]
+                if len(rets) != 1:
+                    return False, False
+                pa = rets[0].value.args
+                gfn = nested.get(pa[0].id) if pa and isinstance(pa[0], ast.Name) else None
+                sfn = nested.get(pa[1].id) if len(pa) > 1 and isinstance(pa[1], ast.Name) else None
+                okg_ = oks_ = False
+                if gfn is not None and gfn.args.args:
+                    me = gfn.args.args[0].arg
+                    rr = [n for n in ast.walk(gfn) if isinstance(n, ast.Return) and n.value is not None]
+                    okg_ = bool(rr) and all(isinstance(x.value, ast.Subscript) and U(x.value.value) == f"{me}.{backing}" and isinstance(x.value.slice, ast.Name)
+                                            and x.value.slice.id == params[0] for x in rr)
+                if sfn is not None and len(sfn.args.args) > 1:
+                    me, vn_ = sfn.args.args[0].arg, sfn.args.args[1].arg
+                    sts_ = [n for n in ast.walk(sfn) if isinstance(n, ast.Assign)]
+                    oks_ = len(sts_) == 1 and isinstance(sts_[0].targets[0], ast.Subscript) and U(sts_[0].targets[0].value) == f"{me}.{backing}" \
+                        and isinstance(sts_[0].targets[0].slice, ast.Name) and sts_[0].targets[0].slice.id == params[0] and U(sts_[0].value) == vn_
+                return okg_, oks_
+        return False, False
     for k in OPTION_KEYS:
         g, s = ci.methods.get(k), ci.setters.get(k)
         okg = oks = False
+        if g is None and s is None:
+            okg, oks = factory_form(k)
         if g is not None and g.is_property:
             rets = [n for n in own_nodes(g.node) if isinstance(n, ast.Return) and n.value is not None]
             okg = bool(rets) and all(isinstance(x.value, ast.Subscript) and U(x.value.value) == b and isinstance(x.value.slice, ast.Constant)
                                      and x.value.slice.value == k for x in rets)
-        elif generic_get is not None:
+        elif generic_get is not None and not okg:
             okg = any(isinstance(x, ast.Subscript) and U(x.value) == b for x in ast.walk(generic_get.node))
         if s is not None:
             sts = [n for n in own_nodes(s.node) if isinstance(n, ast.Assign)]
             vname = s.node.args.args[1].arg if len(s.node.args.args) > 1 else "value"
             oks = len(sts) == 1 and isinstance(sts[0].targets[0], ast.Subscript) and U(sts[0].targets[0].value) == b \
                 and isinstance(sts[0].targets[0].slice, ast.Constant) and sts[0].targets[0].slice.value == k and U(sts[0].value) == vname
-        elif generic_set is not None:
+        elif generic_set is not None and not oks:
             oks = any(isinstance(n, ast.Assign) and isinstance(n.targets[0], ast.Subscript) and U(n.targets[0].value) == b
                       for n in own_nodes(generic_set.node))
         where = c.where(g, g.node) if g is not None else c.where(init, init.node)
